@@ -2,7 +2,7 @@
 import pickle
 
 from . import gen, export
-from .common import pa, pd, np, weak_rows, weak, dec_cell, TYPES, NestedExtensionArray
+from .common import pa, pd, np, weak_rows, weak, dec_cell, TYPES, NestedExtensionArray, NestedFrame
 from .runner import call_real
 from .subject import Subject
 
@@ -570,3 +570,60 @@ def exhaustive_slices(ctx):
                     model = {"ok": weak_rows(m["ok"]["col"]["rows"])} if "ok" in m else m
                     ctx.case("getitem.slice.exhaustive", {**s.desc(), "key": key}, real, model,
                              {"ok": rows[slice(a, b, st)]}, hyp=s.hyp, features=(f"n={n}",), nontrivial=n > 0)
+
+
+# ---- views of derived objects (C03: "however they were produced") -------------------------------
+
+def derived_views(ctx, count):
+    import io
+    rng = ctx.rng
+    for _ in range(count):
+        s = Subject(ctx, allow_hidden=False)
+        ser = s.series()
+        n = len(ser)
+        how = rng.choice(["slice", "mask", "take", "concat", "setitem", "pickle", "dropna", "with_flat", "without",
+                          "empty_ints", "parquet", "copy", "iloc_neg"])
+        try:
+            if how == "slice":
+                a = rng.randint(0, n)
+                d = ser.iloc[a:rng.randint(a, n)]
+            elif how == "mask":
+                d = ser[np.array([rng.random() < 0.5 for _ in range(n)], dtype=bool)]
+            elif how == "take":
+                d = ser.take([rng.randrange(n) for _ in range(rng.randint(0, n + 1))]) if n else ser
+            elif how == "concat":
+                d = pd.concat([ser.iloc[n // 2:], ser, ser.iloc[:n // 2]])
+            elif how == "setitem":
+                d = ser.copy()
+                if n:
+                    d.array[rng.randrange(n)] = df_of_row(gen.rand_row(rng, s.ty, p_missing=0.3), s.ty)
+            elif how == "pickle":
+                d = pickle.loads(pickle.dumps(ser))
+            elif how == "dropna":
+                d = ser.dropna()
+            elif how == "with_flat":
+                t = rng.choice(gen.TYNAMES)
+                d = ser.nest.with_flat_field("z", gen.flat_array([gen.rand_cell(rng, t) for _ in range(ser.nest.flat_length)], t))
+            elif how == "without":
+                if len(s.ty) < 2:
+                    continue
+                d = ser.nest.without_field(s.ty[0][0])
+            elif how == "empty_ints":
+                d = pd.Series(ser.array[np.array([], dtype=np.int64)], name="nest")
+            elif how == "parquet":
+                buf = io.BytesIO()
+                NestedFrame({"nest": ser.reset_index(drop=True)}).to_parquet(buf)
+                buf.seek(0)
+                from nested_pandas import read_parquet
+                d = read_parquet(buf)["nest"]
+            elif how == "iloc_neg":
+                d = ser.iloc[::-1]
+            else:
+                d = ser.copy()
+        except Exception as e:  # noqa: BLE001
+            ctx.case(f"derive.{how}", s.desc(), {"err": type(e).__name__, "msg": str(e)[:100]}, None, {"ok": True},
+                     hyp=s.hyp, features=(how,))
+            continue
+        phys = export.export_ext(d.array)
+        a = ctx.driver.call("abs", col=phys)["model"]
+        check_object_views(ctx, d, a["col"]["rows"], [list(x) for x in a["col"]["ty"]], f"derived:{how}", [s.desc(), how])
